@@ -205,3 +205,47 @@ Definition n_set (o : nobj) (st : nstat) (v : Z) : nobj * nstat :=
   end.
 Definition n_reset (o : nobj) : nobj := mkN false (nslot o) (nval o).          (* tag only: the T object is not destroyed *)
 Definition n_destroy (o : nobj) (st : nstat) : nstat := st.                     (* no destructor call *)
+
+(* ---------- nmtools::small_vector<T,DIM> (utility/small_vector.hpp:45-140), default configuration:
+   either_t = std::variant, static_vector_t = utl::static_vector, vector_t = std::vector.  The inline arm is the
+   static_vector model above (physical cells: a shrink leaves the old values in place); the heap arm is a std::vector
+   (a list).  The spill of resize(new_size > DIM) copies the prev_size LIVE cells into a value-initialised vector. *)
+Section SmallVector.
+  Variable DIM : nat.
+  Inductive smallv := SmS (o : sobj) | SmD (l : list Z).
+  Definition cellz (c : cell) : Z := match c with Val z => z | Indet => 0%Z end.
+  Definition sm_default : smallv := SmS (s_default DIM).                     (* buffer_ = {} : first alternative *)
+  (* small_vector(N): N < DIM -> static_vector{} ; else vector{} ; then resize(N) on the chosen arm *)
+  Definition sm_sized (n : nat) : smallv :=
+    if n <? DIM then SmS (s_resize DIM (s_default DIM) n) else SmD (repeat 0%Z n).
+  Definition sm_size (x : smallv) : nat := match x with SmS o => ssize o | SmD l => length l end.
+  Definition sm_resize (x : smallv) (n : nat) : smallv :=
+    match x with
+    | SmS o => if n <=? DIM then SmS (s_resize DIM o n)
+               else SmD (map cellz (firstn (ssize o) (sbuf o)) ++ repeat 0%Z (n - ssize o))
+                    (* new_buffer = small_vector(n); for i < prev_size: new_buffer.at(i) = static_ptr->at(i) *)
+    | SmD l => SmD (firstn n l ++ repeat 0%Z (n - length l))
+    end.
+  Definition sm_write (x : smallv) (i : nat) (v : Z) : smallv :=
+    match x with SmS o => SmS (mkS (upd (sbuf o) i (Val v)) (ssize o)) | SmD l => SmD (upd l i v) end.
+  Definition sm_push (x : smallv) (v : Z) : smallv :=
+    if sm_size x =? DIM then sm_write (sm_resize x (DIM + 1)) DIM v       (* resize(old_size+1); at(old_size) = t *)
+    else match x with SmS o => SmS (s_push DIM o v) | SmD l => SmD (l ++ [v]) end.
+  Definition smstep (s : smallv * smallv) (o : op) : smallv * smallv :=
+    let (a, b) := s in
+    match o with
+    | Default => (sm_default, b)
+    | Ctor n => (sm_sized n, b)
+    | Push v => (sm_push a v, b)
+    | Resize n => (sm_resize a n, b)
+    | Write i v => if i <? sm_size a then (sm_write a i v, b) else s
+    | CopyCtor => (a, a)
+    | AssignAB => (a, a)
+    | AssignBA => (b, b)
+    | SelfAssign => s
+    | Flip => (b, a)
+    end.
+  Definition smrun (ops : list op) : smallv * smallv := fold_left smstep ops (sm_default, sm_default).
+  Definition sm_contents (x : smallv) : list Z := match x with SmS o => map cellz (scontents o) | SmD l => l end.
+  Definition sm_is_static (x : smallv) : bool := match x with SmS _ => true | SmD _ => false end.
+End SmallVector.
